@@ -11,6 +11,7 @@ def main():
     seed = int(os.environ.get("VERIF_SEED", "0") or 0)
     from . import dehash
 
+    sys.path.insert(0, os.environ.get("PROV_SRC", "/repo/src"))
     dehash.install()
     from . import symctx, statehygiene  # noqa: F401
 
